@@ -14,7 +14,7 @@ GEN = [_gb.gen_bases]            # the model reads mp_bases[].chars_per_bit_exac
 LEAN_MODULES = ["MpirProofs.Props.C13_str"]
 THEOREMS = ["Mpir.MpfStr." + t for t in """
     powHigh_bound convert_zero convert_err convert_exact_if_fits set_str_spec parse_sound mpf_set_str_correct
-    withinUnit_iff getOk_iff roundUp_value get_digits_integer_exact scaledInt_bound
+    withinUnit_iff getOk_iff roundUp_value get_digits_integer_exact scaledInt_bound get_digits_accuracy
 """.split()]
 PINS = [("mpf/set_str.c", None), ("mpf/get_str.c", None), ("gmp-impl.h", "MPF_SIGNIFICANT_DIGITS")]
 TRUSTED = ["hand-written model lean/Mpir/Model/MpfStr.lean of mpf_set_str / mpf_get_str (accepted syntax statement by statement; conversion at value "
@@ -33,8 +33,11 @@ ASSUMPTIONS = ["C locale: decimal point '.', isspace = space \\t \\n \\v \\f \\r
                "mpf_get_str: bases 2..62 and -2..-36 (the manual's '2 to 362' is a misprint); base 0 / 1 / 63.. / -37.. are outside the documented domain "
                "and not generated; n_digits beyond MPF_SIGNIFICANT_DIGITS is reduced to it (documented: 'no more digits than can be accurately represented')",
                "the accuracy statement for n = 1 is as weak as the property words it (within one unit of the only digit)",
-               "not proved: accuracy of the get_str conversion algorithm itself (powHigh truncation inside get_digits) — predicate on every run; proved: the "
-               "set_str algorithm's error bound for all exponents below 2^63 (convert_err), exact digits for integers (get_digits_integer_exact)"]
+               "mpf_get_str accuracy (get_digits_accuracy) is proved under the adequacy conditions MpfStr.adequate (two guard limbs beyond the digits "
+               "worked to: base^n*2^64 <= B^(nln-1); three more digits developed than delivered; |scaling exponent| < 2^59; ignored limbs of the power <= "
+               "n_less_limbs_needed): these concern only the binary64 computations of get_str.c:180/189/226 and are EVALUATED by the driver on every "
+               "mpf_get_str13 line (`!adequacy`), not proved for all inputs; structural properties of the digits (no leading zero, count) rest on the predicate",
+               "mpf_set_str: convert_err / convert_exact_if_fits / mpf_set_str_correct hold for ALL strings, bases, precisions and exponents below 2^63"]
 RULE = ("mpf_set_str: destination precisions 2,3,4,5,(17) limbs x bases 2,8,10,16,32,36,37,62 (+random, +negative = decimal exponent, +0): mantissas of "
         "1..3*(prec+1) limbs worth of digits (truncated / not), values B^k, B^k±1, b^k, b^k-1 around the truncation boundary, point at every kind of "
         "position incl. fraction length == exponent (early-return path), exponents 0, ±1, ±frac, ±1000, ±10^6, ±2^31, ±2^40, ±2^61, representable "
